@@ -159,6 +159,21 @@ def fam_C06(tier, seed):
         else:
             b.con(cls, res=r, distance=1, mode="exact", has_intervals=False, intervals=[])
         ps.append(b.done())
+    # single-task constraints whose bound is an expression over ANOTHER task (value: Union[int, z3.ArithRef]):
+    # a constrained task that is left out binds nothing, whatever the expression evaluates to
+    from problems import add, sub
+    for cls, (k2, kw2), opts, ex in itertools.product(
+            ("TaskStartAt", "TaskStartAfter", "TaskEndAt", "TaskEndBefore"), [("F", dict(dur=1)), ("V", dict(min=0, max=2))],
+            [(True, False), (True, True), (False, True)], ("start", "end", "start+1", "end-1")):
+        b = PB(4, tag="opt-symbolic-bound")
+        a = b.task("A", "F", dur=1, optional=opts[0])
+        c = b.task("B", k2, optional=opts[1], **kw2)
+        e = {"start": start(c), "end": end(c), "start+1": add(start(c), const(1)), "end-1": sub(end(c), const(1))}[ex]
+        f = dict(task=a, value=0, vexpr=e)
+        if cls in ("TaskStartAfter", "TaskEndBefore"):
+            f["kind"] = "lax"
+        b.con(cls, **f)
+        ps.append(b.done())
     if not full:
         ps = sample(rng, ps, 260)
     return number(ps)
